@@ -1,6 +1,7 @@
 //! bc — bounded contract replay on the real affinitree crate (DESIGN.md §2.5).
 //! Every sub-command evaluates the executable form of a contract on a finite, stated space of
 //! cases and prints one JSON report as the last stdout line.  Bounded: never counted as proof.
+mod c_lin;
 mod c_more;
 mod c_pwl;
 mod c_tree;
@@ -63,6 +64,11 @@ fn main() {
         "reduce" => c_pwl::reduce(&mut rep, tier),
         "histories" => c_pwl::histories(&mut rep, tier),
         "lp-debug" => { lp_debug(); return; }
+        "aff" => c_lin::aff_algebra(&mut rep, tier),
+        "poly" => c_lin::poly_ops(&mut rep, tier),
+        "schema" => c_lin::schemas(&mut rep, tier),
+        "distill" => c_lin::distill(&mut rep, tier),
+        "arch" => c_lin::arch(&mut rep, tier),
         "regions" => c_more::regions(&mut rep, tier),
         "cleanup" => c_more::cleanup(&mut rep, tier),
         "faults" => c_more::faults(&mut rep, tier),
@@ -87,6 +93,13 @@ pub fn lp_debug() {
     match lp.solver.solve() {
         Ok(sol) => println!("raw: obj={} x={:?}", sol.objective(), lp.vars.iter().map(|v| sol[*v]).collect::<Vec<_>>()),
         Err(e) => println!("raw err {e:?}"),
+    }
+    let p = Polytope::from_mats(arr2(&[[1.0, -1.0], [1.0, -1.0], [1.0, 1.0], [1.0, -1.0]]), arr1(&[-2.0, 0.0, -2.0, -2.0]));
+    println!("result {:?}", p.remove_redundant_row_constraints());
+    for (keep, obj) in [(vec![0usize, 2], [-1.0, 1.0]), (vec![1, 2], [-1.0, 1.0]), (vec![0, 1, 2], [-1.0, 1.0])] {
+        let drop: Vec<usize> = (0..4).filter(|i| !keep.contains(i)).collect();
+        let q = p.remove_rows(drop);
+        println!("keep {keep:?} min {obj:?}: {:?}", q.solve_linprog(arr1(&obj), false));
     }
     let p = Polytope::from_mats(arr2(&[[0.0, 1.0], [1.0, 0.0]]), arr1(&[0.0, 5.0]));
     println!("min -y s.t. y<=0, x<=5 : {:?}", p.solve_linprog(arr1(&[0.0, -1.0]), false));
